@@ -419,8 +419,8 @@ Proof.
   intros Hg. cbn [app]. unfold pi_n, pi_s. apply ok_tok_rok. apply rok_sep_ok; [reflexivity|exact Hg].
 Qed.
 
-Lemma ok_extend_kw kw g : pi_ok g -> pi_ok ([pi_n kw_extend; pi_s; pi_n kw; pi_s] ++ g).
-Proof. intros Hg. apply (ok_kw_space kw_extend ([pi_n kw; pi_s] ++ g)). now apply ok_kw_space. Qed.
+Lemma ok_extend_kw kw g : pi_ok g -> pi_ok ([pi_n apk_extend; pi_s; pi_n kw; pi_s] ++ g).
+Proof. intros Hg. apply (ok_kw_space apk_extend ([pi_n kw; pi_s] ++ g)). now apply ok_kw_space. Qed.
 
 Lemma rok_opt_space_curly (body : list pi_layout) p l :
   (forall it, In it body -> forall p l, pi_ok (it p l)) ->
@@ -468,7 +468,7 @@ Proof.
     cbn [app]. unfold pi_n at 1. apply ok_tok_rok.
     apply rok_app; [apply rok_directives|]. apply rok_space_curly.
     apply in_map_ok. intros x _ p' l'. apply ok_rootop.
-  - apply ok_description_app. apply (ok_kw_space kw_scalar (pi_n name :: pi_directives dirs p l)).
+  - apply ok_description_app. apply (ok_kw_space apk_scalar (pi_n name :: pi_directives dirs p l)).
     unfold pi_n. apply ok_tok_rok, rok_directives.
   - apply ok_description_app. apply ok_kw_space, ok_object_type_like.
   - apply ok_description_app. apply ok_kw_space, ok_object_type_like.
@@ -477,11 +477,11 @@ Proof.
     apply in_map_ok. intros x _ p' l'. apply ok_enumvaldef.
   - apply ok_description_app. apply ok_kw_space, ok_name_dirs_body.
     apply in_map_ok. intros x _ p' l'. apply ok_inputvaldef.
-  - apply (ok_kw_space kw_extend (pi_n kw_schema :: _)). unfold pi_n. apply ok_tok_rok.
+  - apply (ok_kw_space apk_extend (pi_n apk_schema :: _)). unfold pi_n. apply ok_tok_rok.
     apply rok_app; [apply rok_directives|].
     destruct roots as [|r roots]; [apply rok_nil|]. apply rok_space_curly.
     apply in_map_ok. intros x _ p' l'. apply ok_rootop.
-  - apply (ok_extend_kw kw_scalar (pi_n name :: pi_directives dirs p l)).
+  - apply (ok_extend_kw apk_scalar (pi_n name :: pi_directives dirs p l)).
     unfold pi_n. apply ok_tok_rok, rok_directives.
   - apply ok_extend_kw, ok_object_type_like.
   - apply ok_extend_kw, ok_object_type_like.
